@@ -1454,53 +1454,77 @@ var ruleScopeS10 = &Rule{
 			adds := 0
 			stored := false
 			gatedBy := ""
-			loops := allLoops(f)
-			for _, b := range f.Blocks {
-				for _, ins := range b.Instrs {
-					if call, ok := ins.(*ssa.Call); ok {
-						if g := call.Call.StaticCallee(); g != nil && g.Name() == "AddLocVar" {
-							adds++
+			isHeadStore := func(ins ssa.Instruction) bool {
+				st, ok := ins.(*ssa.Store)
+				if !ok {
+					return false
+				}
+				fa, ok := st.Addr.(*ssa.FieldAddr)
+				if !ok || fieldName(fa.X.Type(), fa.Field) != "LoopHeadLoc" {
+					return false
+				}
+				_, nm := namedPkgName(fa.X.Type())
+				return nm == "VarInfo"
+			}
+			// the store may depend only on the header expression being there (a length test) and having a location
+			// (IsInitialLoc), and on the loop over the names it sits in
+			checkGates := func(g *ssa.Function, b *ssa.BasicBlock) {
+				loops := allLoops(g)
+				for _, e0 := range dominatingEdges(b) {
+					e := stripNot(e0)
+					okCond := false
+					switch x := e.cond.(type) {
+					case *ssa.Call:
+						if h := x.Call.StaticCallee(); h != nil && h.Name() == "IsInitialLoc" {
+							okCond = true
 						}
-					}
-					if st, ok := ins.(*ssa.Store); ok {
-						if fa, ok := st.Addr.(*ssa.FieldAddr); ok && fieldName(fa.X.Type(), fa.Field) == "LoopHeadLoc" {
-							if _, nm := namedPkgName(fa.X.Type()); nm == "VarInfo" {
-								stored = true
-								// the store may depend only on the header expression being there (a length test) and having a
-								// location (IsInitialLoc), and on the loop over the names it sits in
-								for _, e0 := range dominatingEdges(b) {
-									e := stripNot(e0)
-									okCond := false
-									switch x := e.cond.(type) {
-									case *ssa.Call:
-										if g := x.Call.StaticCallee(); g != nil && g.Name() == "IsInitialLoc" {
-											okCond = true
+					case *ssa.BinOp:
+						if _, isLen := isLenCall(x.X); isLen {
+							okCond = true
+						}
+						if _, isLen := isLenCall(x.Y); isLen {
+							okCond = true
+						}
+						if ref := x.Referrers(); ref != nil {
+							for _, r := range *ref {
+								if iff, ok := r.(*ssa.If); ok {
+									for _, l := range loops {
+										if l.header == iff.Block() {
+											okCond = true // the condition of the loop itself
 										}
-									case *ssa.BinOp:
-										if _, isLen := isLenCall(x.X); isLen {
-											okCond = true
-										}
-										if _, isLen := isLenCall(x.Y); isLen {
-											okCond = true
-										}
-										if ref := x.Referrers(); ref != nil {
-											for _, r := range *ref {
-												if iff, ok := r.(*ssa.If); ok {
-													for _, l := range loops {
-														if l.header == iff.Block() {
-															okCond = true // the condition of the loop itself
-														}
-													}
-												}
-											}
-										}
-									}
-									if !okCond {
-										gatedBy = c.Pos(e.cond.Pos())
 									}
 								}
 							}
 						}
+					}
+					if !okCond {
+						gatedBy = c.Pos(e.cond.Pos())
+					}
+				}
+			}
+			for _, b := range f.Blocks {
+				for _, ins := range b.Instrs {
+					if call, ok := ins.(*ssa.Call); ok {
+						g := call.Call.StaticCallee()
+						if g != nil && g.Name() == "AddLocVar" {
+							adds++
+						}
+						// a private helper that records the range (setLoopHeadLoc(locVar, firstExp, block))
+						if g != nil && g.Blocks != nil && c.IsModFn(g) && g.Pkg == f.Pkg {
+							for _, gb := range g.Blocks {
+								for _, gi := range gb.Instrs {
+									if isHeadStore(gi) {
+										stored = true
+										checkGates(g, gb)
+										checkGates(f, b)
+									}
+								}
+							}
+						}
+					}
+					if isHeadStore(ins) {
+						stored = true
+						checkGates(f, b)
 					}
 				}
 			}
